@@ -42,7 +42,7 @@ def phi(cfgs):
 
 @st.composite
 def cases(draw, tier):
-  mspec = draw(G.model_specs(max_nodes=6, max_subgraphs=1,
+  mspec = draw(G.model_specs(max_nodes=6, max_subgraphs=1, reuse_const=True,
                              ops=G.SUPPORTED + ['RELU', 'ABS', 'MAX_POOL_2D'],
                              const_styles=['normal', 'normal', 'positive', 'negative']))
   names = engine.op_out_names(mspec)
